@@ -63,6 +63,9 @@ def _progs(tier: str) -> List[Dict[str, Any]]:
     for n, k in enumerate(LIN + ULIN + ATT):
         for pre in ("nested", "nested_called"):
             out.append({"prog": {"items": [["op", k], ["op", "gelu:F"]], "sink": "sum"}, "fmt": FORMATS[n % 4], "pre": pre})
+    # two transformed copies of the same module with DIFFERENT formats, called alternately
+    for n, k in enumerate(LIN + ULIN + ATT):
+        out.append({"prog": {"items": [["op", k], ["op", "tanh"]], "sink": "sum"}, "fmt": FORMATS[n % 4], "other_fmt": FORMATS[(n + 1) % 4]})
     for n, (a, b) in enumerate(itertools.product(ALL, ALL)):
         out.append({"prog": {"items": [["op", a], ["op", b]], "sink": "mse" if n % 3 == 0 else "sum"}, "fmt": FORMATS[n % 4]})
     for n, items in enumerate(spines(SPINE, SMALL + ["linear:F_nobias", "sdpa:plain"], 1 if tier == "quick" else 2)):
@@ -206,6 +209,12 @@ def run_case(case: Dict[str, Any]) -> Dict[str, Any]:
                     run(base_m, base_m)
             t = simulate_fp8(base_m) if fname == "fp8_api" else simulate_format(base_m, fwd, bwd)
             t.backends.append(lambda gm, ex: (captured.append(gm), gm)[1])
+            if case.get("other_fmt"):
+                ident += "|two_formats"
+                of, ob = _formats(case["other_fmt"])
+                t_other = simulate_fp8(base_m) if case["other_fmt"] == "fp8_api" else simulate_format(base_m, of, ob)
+                run(t, t)
+                run(t_other, t_other)  # resets TorchDynamo, traces with the other formats
             torch._dynamo.reset()
             y_imp, g_imp = run(t, t)
     except Exception as e:  # noqa
@@ -215,7 +224,7 @@ def run_case(case: Dict[str, Any]) -> Dict[str, Any]:
     if not captured:
         viol.append({"key": ident + "|backend_not_invoked", "msg": "the quantisation backend never ran\n" + src})
     else:
-        tg = [n.target for gm in captured for n in gm.graph.nodes if n.op == "call_function"]
+        tg = [n.target for n in captured[-1].graph.nodes if n.op == "call_function"]  # the latest trace
         nquant = sum(1 for x in tg if getattr(x, "__name__", "").startswith("_quantised"))
         if nquant != nq:
             viol.append({"key": ident + "|quantised_node_count", "msg": f"{nquant} quantised nodes for {nq} linear/attention instructions\n" + src})
